@@ -270,6 +270,9 @@ func H12two_qos2() {
 func H12two_batch() {
 	svc, c := vrtClientService()
 	failing := vrtChoice("failing_callback", 3) // 2: none
+	nocb := vrtChoice("without_callback", 3)    // 2: none; a request sent without a completion callback is
+	// released like any other and must not take the callbacks of the requests released with it along
+	// (round-7 change C12-14)
 	done := [2]int{}
 	ids := [2]uint16{}
 	for i := 0; i < 2; i++ {
@@ -278,13 +281,18 @@ func H12two_batch() {
 		m.SetTopic([]byte("t"))
 		m.SetPayload([]byte{byte('a' + i)})
 		m.SetQoS(1)
-		err := svc.publish(m, func(msg, ack message.Message, err error) error {
+		var cb OnCompleteFunc = func(msg, ack message.Message, err error) error {
 			done[i]++
 			if failing == i {
 				return fmt.Errorf("completion %d failed", i)
 			}
 			return nil
-		})
+		}
+		if nocb == i {
+			cb = nil
+			done[i] = 1 // (nothing to count)
+		}
+		err := svc.publish(m, cb)
 		vrtAssert("C12.call_ok", err == nil)
 		ids[i] = m.PacketID()
 	}
@@ -293,7 +301,7 @@ func H12two_batch() {
 	first := vrtChoice("acked_first", 2)
 	c.peerSend(specEncode(&specPkt{Typ: specPUBACK, ID: ids[first]}))
 	vrtQuiesce()
-	vrtAssert("C12.no_completion_before_its_ack", done[1-first] == 0)
+	vrtAssert("C12.no_completion_before_its_ack", done[1-first] == 0 || nocb == 1-first)
 	if first == 0 {
 		vrtAssert("C12.completion_once_after_ack", done[0] == 1)
 	}
@@ -302,5 +310,65 @@ func H12two_batch() {
 	vrtAssert("C12.both_completed_once", done[0] == 1 && done[1] == 1)
 	vrtAssert("C12.connection_survives_callback_error", !c.isClosed())
 	vrtReach("C12.batch_completed")
+	svc.stop()
+}
+
+
+// H12two_sub_unsub: a SUBSCRIBE and an UNSUBSCRIBE in flight together, acknowledged in either order
+// (the server may answer them in any order): each completion fires exactly once, when ITS OWN
+// acknowledgement has arrived - not earlier, and not only when the other request's acknowledgement
+// arrives too (round-7 change C12-13: both kinds of request shared one FIFO queue, so the later one's
+// completion waited for the earlier one's acknowledgement).
+func H12two_sub_unsub() {
+	svc, c := vrtClientService()
+	done := [2]int{}
+	var errs [2]error
+	subFirst := vrtBool("subscribe_first")
+	ids := [2]uint16{}
+	// the filter that will be unsubscribed is subscribed (and acknowledged) beforehand
+	m0 := message.NewSubscribeMessage()
+	m0.AddTopic([]byte("b"), 1)
+	pre := 0
+	vrtAssert("C12.call_ok", svc.subscribe(m0, func(msg, ack message.Message, err error) error { pre++; return nil }, func(*message.PublishMessage) error { return nil }) == nil)
+	vrtQuiesce()
+	c.peerTake()
+	c.peerSend(specEncode(&specPkt{Typ: specSUBACK, ID: m0.PacketID(), Codes: []byte{1}}))
+	vrtQuiesce()
+	vrtAssert("C12.harness_presubscribed", pre == 1)
+	send := func(i int) {
+		if (i == 0) == subFirst {
+			m := message.NewSubscribeMessage()
+			m.AddTopic([]byte("a"), 1)
+			err := svc.subscribe(m, func(msg, ack message.Message, err error) error { done[i]++; errs[i] = err; return nil },
+				func(*message.PublishMessage) error { return nil })
+			vrtAssert("C12.call_ok", err == nil)
+			ids[i] = m.PacketID()
+		} else {
+			m := message.NewUnsubscribeMessage()
+			m.AddTopic([]byte("b"))
+			err := svc.unsubscribe(m, func(msg, ack message.Message, err error) error { done[i]++; errs[i] = err; return nil })
+			vrtAssert("C12.call_ok", err == nil)
+			ids[i] = m.PacketID()
+		}
+	}
+	send(0)
+	send(1)
+	vrtQuiesce()
+	c.peerTake()
+	ack := func(i int) {
+		if (i == 0) == subFirst {
+			c.peerSend(specEncode(&specPkt{Typ: specSUBACK, ID: ids[i], Codes: []byte{1}}))
+		} else {
+			c.peerSend(specEncode(&specPkt{Typ: specUNSUBACK, ID: ids[i]}))
+		}
+		vrtQuiesce()
+	}
+	first := vrtChoice("acked_first", 2)
+	ack(first)
+	vrtAssert("C12.completion_once_after_its_own_ack", done[first] == 1 && errs[first] == nil)
+	vrtAssert("C12.no_completion_before_its_ack", done[1-first] == 0)
+	ack(1 - first)
+	vrtAssert("C12.both_completed_once", done[0] == 1 && done[1] == 1 && errs[1-first] == nil)
+	vrtReach("C12.two_completed")
 	svc.stop()
 }
